@@ -56,6 +56,9 @@ func c01(args []string) int {
 		}
 		p, _ := c01Case(f, idx, nExh, &hits)
 		restore := p.S.Apply()
+		if idx%4 == 0 {
+			poolHistory(idx / 2)
+		}
 		res := x.Run(p)
 		restore()
 		h := rng.HashStr(p.S.String())
